@@ -438,6 +438,27 @@ def eval_h5ds_copy(ctx, repo, agg):
                     ok = d.fletcher32 or route == "verbatim route"
                     agg.add("R8.7", "checksums on re-encoded data", node, ok,
                             f"{where}: re-encoded without fletcher32")
+    # the chunk-wise branch covers [0, N) for every length: datasets whose
+    # elements are so large that any size-based slab is one chunk (2 events)
+    for nn in (1, 2, 3, 4, 5, 6, 7):
+        srcf = H.H5File("input[slab sizes]", readonly=True)
+        g = srcf.create_group("events")
+        big = H.DType("V", itemsize=8 * 1024 ** 2)
+        d = H.H5Dataset(g, "image", (nn,), big, (2,), None, False,
+                        [f"frame{i}" for i in range(nn)])
+        g.members["image"] = d
+        srcf.seal()
+        dst = H.H5File("output")
+        dloc = dst.create_group("grp")
+        res = L.run(lambda: fn(src_loc=g, src_name="image", dst_loc=dloc))
+        where = f"chunked dataset of {nn} events, chunks of 2 events"
+        if res[0] != "ok":
+            agg.add("R8.4", "data [every length of a chunked dataset]", node,
+                    False, f"h5ds_copy fails on a {where}: {_res(res)}")
+            continue
+        cmpd = compare_dataset(d, dloc.members.get("image"))
+        agg.add("R8.4", "data [every length of a chunked dataset]", node,
+                "data" not in cmpd, f"{where}: " + cmpd.get("data", ""))
     # non-dataset without recursion is refused
     src = make_source("base")
     dst = H.H5File("output")
@@ -2720,4 +2741,30 @@ MUTANTS = list(MUTANTS) + [
        "            h5 = stack.enter_context(h5py.File(path_in, \"a\"))\n"
        "            hc = stack.enter_context(h5py.File(path_temp, \"w\"))\n")],
      "R8.3"),
+]
+
+# seed /verif/seeded/C20_15
+MUTANTS = list(MUTANTS) + [
+    ("slab-wise copy loop stops one slab early (seeded C20_15)", COPIER,
+     ("                for chunk in src.iter_chunks():\n"
+      "                    dst[chunk] = src[chunk]\n",
+      "                cbytes = int(np.prod(chunks)) * src.dtype.itemsize\n"
+      "                step = chunks[0] * max(1, 8 * 1024**2 // cbytes)\n"
+      "                for start in range(0, src.shape[0] - step, step):\n"
+      "                    dst[start:start + step] = src[start:start + step]"
+      "\n"
+      "                rem = src.shape[0] % step\n"
+      "                if rem:\n"
+      "                    dst[-rem:] = src[-rem:]\n"), "R8.4"),
+]
+
+TWINS = list(TWINS) + [
+    ("slab-wise copy loop over the whole range", COPIER,
+     ("                for chunk in src.iter_chunks():\n"
+      "                    dst[chunk] = src[chunk]\n",
+      "                cbytes = int(np.prod(chunks)) * src.dtype.itemsize\n"
+      "                step = chunks[0] * max(1, 8 * 1024**2 // cbytes)\n"
+      "                for start in range(0, src.shape[0], step):\n"
+      "                    dst[start:start + step] = src[start:start + step]"
+      "\n")),
 ]
